@@ -1,6 +1,6 @@
 import Gen.Layout
 import Model.Const
-import Bridge.Symbolic
+import Bridge.Basic
 /-!
   Bridge for the value-range kernels of `pydsdl/_serializable/_primitive.py` (translated into `Gen/Layout.lean` on every run):
   the generated `inclusive_value_range` of signed and unsigned integer types return the model's ranges for every width.
